@@ -1,7 +1,8 @@
 (* C20 — the par command's exit status reflects the outcome.
    Model: Model/CLI.v (cmd/par/main.go: Go flag parsing as used there, command and extension dispatch,
    result-to-status mapping) over the library models. *)
-From Gopar Require Import Model.Base Model.CRC Model.GoPath Model.FS Model.Par2 Model.Par1 Model.CLI Proofs.CLIFacts.
+From Gopar Require Import Model.Base Model.CRC Model.GoPath Model.FS Model.Par2 Model.Par1 Model.CLI Proofs.CLIFacts Proofs.Par2Facts Proofs.Par2Clean Proofs.Par2Converge Proofs.CLICompose.
+From Coq Require Import List. Import ListNotations.
 Open Scope N_scope.
 
 (* the status mapping of verify: needed and possible -> 1, needed and impossible -> 2, otherwise 0 *)
@@ -80,3 +81,94 @@ Print Assumptions C20_repair1_status.
 Theorem C20_usage_status : forall md5 cwd args st, cli_is_usage_error args -> fst (cli_run md5 cwd args st) = 3.
 Proof. exact cli_usage. Qed.
 Print Assumptions C20_usage_status.
+
+(* EXIT 0 MEANS SUCCESS, repair (PAR2): for every repair command line (any global flags, letter case,
+   -checkparity), every current directory and EVERY archive state, status 0 implies that afterwards every
+   protected file is present with its recorded length, MD5 and 16k-MD5; and a Repair that did not succeed
+   never exits 0 *)
+Theorem C20_repair2_zero_means_restored : forall md5 cwd args par dbl fs st',
+  cli_run md5 cwd args (io_init fs []) = (0, st') -> cli_is_repair2 args par dbl ->
+  forall ds st1, load_all md5 par (io_init fs []) = (Ok ds, st1) ->
+  NoDup (map (fun info => file_path par (di_name info)) (d_rec (ds_dec ds))) ->
+  forall info, In info (d_rec (ds_dec ds)) ->
+    exists data, fs_lookup (io_fs st') (file_path par (di_name info)) = Some data /\ recorded md5 info data.
+Proof. exact cli_repair2_zero_restored. Qed.
+Print Assumptions C20_repair2_zero_means_restored.
+
+Theorem C20_repair2_nonzero_on_failure : forall md5 cwd args par dbl st r rp st1,
+  cli_is_repair2 args par dbl -> par2_repair md5 par dbl st = ((r, rp), st1) ->
+  r <> Ok tt -> fst (cli_run md5 cwd args st) <> 0.
+Proof. exact cli_repair2_nonzero_on_failure. Qed.
+Print Assumptions C20_repair2_nonzero_on_failure.
+
+(* the same for PAR1: after status 0 every saved file holds data with both recorded hashes (the recorded
+   length too if Repair wrote it; a file that was already accepted is untouched - PAR1's loader compares
+   hashes only, see cli_repair1_zero_length_refuted in Proofs/CLICompose.v) *)
+Theorem C20_repair1_zero_means_restored : forall md5 cwd args par dbl fs st',
+  cli_run md5 cwd args (io_init fs []) = (0, st') -> cli_is_repair1 args par dbl ->
+  forall s st1, p1_load md5 par (io_init fs []) = (Ok s, st1) ->
+  NoDup (map (fun e => join2 (dir par) (e_name e)) (s_saved s)) ->
+  forall e, In e (s_saved s) ->
+    exists data, fs_lookup (io_fs st') (join2 (dir par) (e_name e)) = Some data /\
+      md5 data = e_hash e /\ Par1.hash16k md5 data = e_h16 e /\
+      (N.of_nat (length data) = e_len e \/ fs_lookup fs (join2 (dir par) (e_name e)) = Some data).
+Proof. exact cli_repair1_zero_restored. Qed.
+Print Assumptions C20_repair1_zero_means_restored.
+
+Theorem C20_repair1_nonzero_on_failure : forall md5 cwd args par dbl st r rp st1,
+  cli_is_repair1 args par dbl -> par1_repair md5 par dbl st = ((r, rp), st1) ->
+  r <> Ok tt -> fst (cli_run md5 cwd args st) <> 0.
+Proof. exact cli_repair1_nonzero_on_failure. Qed.
+Print Assumptions C20_repair1_nonzero_on_failure.
+
+(* EXIT 0 MEANS SUCCESS, create (PAR2): status 0 of a create command line (any flags -s/-c, letter case)
+   is exactly library success; statuses are 0 / 6 (any error) / 2 (a Go panic) *)
+Theorem C20_create2_zero_means_created : forall md5 cwd args par files p fs st',
+  cli_run md5 cwd args (io_init fs []) = (0, st') -> cli_is_create2 args par files p ->
+  par2_create md5 cwd par files p (io_init fs []) = (Ok tt, st').
+Proof. exact cli_create2_zero_then_verify_zero. Qed.
+Print Assumptions C20_create2_zero_means_created.
+
+Theorem C20_create2_status : forall md5 cwd args par files p st,
+  cli_is_create2 args par files p ->
+  fst (cli_run md5 cwd args st) =
+    match fst (par2_create md5 cwd par files p st) with Ok _ => 0 | Err _ => 6 | Panic _ => 2 end.
+Proof. exact cli_create2_codes. Qed.
+Print Assumptions C20_create2_status.
+
+(* ... and "wrote the set" end to end: after `par create` exits 0 (inputs with NUL-free names, distinct ids,
+   none of them the index or a <base>.*.par2 file, no such file present before, index path given with its
+   directory resolved), ANY verify command line on that index, from any directory, exits 0 *)
+Theorem C20_create2_zero_then_verify2_zero : forall md5, (forall x, length (md5 x) = 16%nat) ->
+  forall cwd args par files p fs st',
+  cli_run md5 cwd args (io_init fs []) = (0, st') -> cli_is_create2 args par files p ->
+  let sz := create_slice p in
+  let basedir := dir (abs_path cwd par) in
+  let rels := map (rel_path basedir) (map (abs_path cwd) files) in
+  forall datas st1,
+  Par2.io_reads (map (join2 basedir) rels) (io_init fs []) = (Ok datas, st1) ->
+  N.of_nat sz <= MAXSLICE ->
+  Forall (fun nm : bytes => no_nul nm /\ N.of_nat (length nm) < 2 ^ 32) rels ->
+  Forall (fun d : bytes => wf_bytes d /\ N.of_nat (length d) <= MAXINT) datas ->
+  NoDup (map fi_id (map (fun nd : bytes * bytes => data_file_info md5 sz (fst nd) (snd nd)) (combine rels datas))) ->
+  dir (abs_path cwd par) = dir par ->
+  (forall rel, In rel rels -> file_path par rel <> par /\ vol_pattern (Par2.strip_ext par) (file_path par rel) = false) ->
+  (forall q, In q (map fst fs) -> vol_pattern (Par2.strip_ext par) q = false) ->
+  forall cwd2 vargs, cli_is_verify2 vargs par ->
+    fst (cli_run md5 cwd2 vargs (io_init (io_fs st') [])) = 0.
+Proof. exact cli_create2_then_verify2_zero. Qed.
+Print Assumptions C20_create2_zero_then_verify2_zero.
+
+(* a successful repair command is followed by a verify command that exits 0 (premises of C14's convergence step) *)
+Theorem C20_repair2_zero_then_verify2_zero : forall md5 cwd args par dbl fs st',
+  cli_run md5 cwd args (io_init fs []) = (0, st') -> cli_is_repair2 args par dbl ->
+  forall ds st1, load_all md5 par (io_init fs []) = (Ok ds, st1) ->
+  NoDup (map (fun info => file_path par (di_name info)) (d_rec (ds_dec ds))) ->
+  NoDup (map di_id (d_rec (ds_dec ds))) ->
+  (forall info data, In info (d_rec (ds_dec ds)) -> recorded md5 info data ->
+       wf_bytes data /\ di_pairs info = pairs_of md5 (N.to_nat (d_slice (ds_dec ds))) data) ->
+  (forall info, In info (d_rec (ds_dec ds)) ->
+       file_path par (di_name info) <> par /\ vol_pattern (Par2.strip_ext par) (file_path par (di_name info)) = false) ->
+  forall cwd2 vargs, cli_is_verify2 vargs par -> fst (cli_run md5 cwd2 vargs (io_init (io_fs st') [])) = 0.
+Proof. exact cli_repair2_zero_then_verify_zero. Qed.
+Print Assumptions C20_repair2_zero_then_verify2_zero.
